@@ -188,10 +188,46 @@ def r09b(ctx):
         if any(any(LayerFacts(model, c, c.provider(h).node).is_self_name(LayerFacts(model, c, c.provider(h).node).prefix_of(k)) for k, v, hh in LayerFacts(model, c, c.provider(h).node).stores) for h in helper if isinstance(c.provider(h).node, ast.FunctionDef)):
             ctx.ok(cid, c.module.loc(fn), "outputs stored by a helper property under self._name")
             continue
+        if _helper_stores_under_self_name(model, c, fn, lf):
+            ctx.ok(cid, c.module.loc(fn), "outputs stored by a helper function under the namespace self._name it is handed")
+            continue
         if cid in R09B_EXCEPTIONS:
             ctx.exempt(cid, c.module.loc(fn), R09B_EXCEPTIONS[cid])
             continue
         ctx.bad(cid, c.module.loc(fn), "no key under the namespace self._name is stored by this layer: the keys reported by __dask_keys__ are undefined")
+
+
+def _helper_stores_under_self_name(model, c, fn, lf):
+    """the layer calls a package function with self._name (or a local holding it) as an argument, and that function stores
+    keys whose namespace is the corresponding parameter"""
+    from sa.rules.util import callee
+
+    for call in (x for x in iter_body_nodes(fn) if isinstance(x, ast.Call)):
+        t = callee(model, c.module, c, call)
+        if t is None:
+            continue
+        hmod, hcls, hfn = t
+        names = [a.arg for a in hfn.args.posonlyargs + hfn.args.args]
+        if names and names[0] in ("self", "cls"):
+            names = names[1:]
+        bound = {}
+        for i, a in enumerate(call.args):
+            if isinstance(a, ast.Starred):
+                break
+            if i < len(names):
+                bound[names[i]] = a
+        for kw in call.keywords:
+            if kw.arg:
+                bound[kw.arg] = kw.value
+        ns_params = {p for p, a in bound.items() if lf.is_self_name(a)}
+        if not ns_params:
+            continue
+        hf = LayerFacts(model, hcls if hcls is not None else c, hfn)
+        for k, v, h in hf.stores:
+            pre = hf.prefix_of(k)
+            if isinstance(pre, ast.Name) and pre.id in ns_params:
+                return True
+    return False
 
 
 # (layer function, prefix text) -> reason
